@@ -23,7 +23,7 @@ for p in props:
 na = [{"property_id": p["id"], "reason": NOT_APPLICABLE.get(p["id"], "contracts for this property are not completed yet (work in progress); not claimed")} for p in props if p["id"] not in REGISTRY]
 m = {
     "version": 1,
-    "setup_cmd": "true",
+    "setup_cmd": "./setup.sh",
     "hooks": {"guard": "JOBLIB_VERIF", "enable": "no source hooks: the verifier reads /repo's source text; replay harnesses wrap functions from outside", 
               "baseline_off_cmd": "cd /repo && /venv/bin/python -m pytest -ra -q -p no:cacheprovider --timeout=900 --continue-on-collection-errors", "source_commits": [], "add_only": True},
     "engines": [{"name": "pyvc", "path": "/verif/pyvc", "serves_properties": sorted(REGISTRY), "kind_free_text": "home-grown VC generator / symbolic executor over the real Python AST (re-read from /repo on every run) with sidecar contracts, loop invariants, modular calls; back ends z3 4.x/5.1 (rlimit-bounded) and cvc5; native replay + bounded small-scope search under /venv/bin/python"}],
